@@ -118,3 +118,16 @@ prop('C13', technique='contract-based deductive verification of the evaluator ad
      assumptions=['expression text parsing (pyparsing)', 'operators are evaluated by BinaryOp.eval / UnaryOp.eval, proved equivalent to the machine under C02'],
      not_covered=['type resolution of names inside procedures (Lvalue.base_type through the main routine)', 'arrays beyond the bounded shapes',
                   '__str__ renderings'])
+prop('C05', technique='contract-based deductive verification of the checking functions over the completely enumerated finite shape domain '
+                      '(real pass objects, stand-in nodes), rule table written from the language rules',
+     explanation='each process_*_pre raises CompileError with the rule\'s category iff the shape violates the rule and the diagnostic carries the '
+                 'offending node\'s position; operator type-mismatch rejection over every operator and operand type pair',
+     assumptions=['every node is visited by every pass (tree traversal / surgery is not covered)'],
+     not_covered=['rule violations detected by the grammar', 'argument matching of calls', 'conditions of IF/ELSEIF/DO/LOOP have no checking function '
+                  '(known finding)', 'block matching in parse_string'])
+prop('C06', technique='contract-based deductive verification: safety obligations (only SyntaxError/CompileError may escape) on the pass functions, '
+                      'folder, optimiser and assembler contracts; generators on the shapes the passes accept',
+     explanation='no checking function, folder, peephole rule or assembler path raises anything but a compile error for the enumerated shapes and all '
+                 'operand values; what the passes accept the listed generators can generate',
+     assumptions=['token shapes handed to parse actions are those of the grammar rules (pyparsing)'],
+     not_covered=['the pyparsing grammar and its parse actions', 'termination', 'generators not under contract'])
